@@ -46,6 +46,9 @@ var fnWhitelist = map[string][]string{
 		"Import.IsService", "Import.IsStream", "Import.GetTo", "Import.Validate", "Imports.Validate",
 		"ServiceLatency.Validate", "Export.IsService", "Export.IsStream", "Export.IsSingleResponse", "Export.IsChunkedResponse", "Export.IsStreamResponse",
 		"Export.Validate", "isContainedIn", "Exports.Validate", "Exports.HasExportContainingSubject", "Mapping.Validate",
+		"CreateValidationResults", "ResponsePermission.Validate", "Permissions.Validate",
+		"OperatorLimits.IsEmpty", "OperatorLimits.Validate", "ExternalAuthorization.Validate",
+		"UserScope.Validate", "SigningKeys.Validate", "Account.Validate", "AccountClaims.Validate",
 	},
 	"V1": {
 		"Subject.HasWildCards", "Subject.IsContainedIn", "cleanSubject",
@@ -1202,6 +1205,62 @@ func (c *fnCtx) call(x *ast.CallExpr) ex {
 	return ex{}
 }
 
+// ifaceDispatch: the pseudo function info of the dispatcher of interface method `in.m` (any arguments; mutated
+// parameters as the implementors have them, which must agree); the dispatcher definition is emitted on first use
+func (c *fnCtx) ifaceDispatch(in, m string) *fnInfo {
+	dname := "I_" + in + "." + m
+	var first *fnInfo
+	var alts []string
+	for _, impl := range c.g.ifaces[in] {
+		fi, ok := c.g.fns[impl+"."+m]
+		if !ok || fi.retType == "" {
+			unsup("interface method %s.%s: %s.%s is not translated", in, m, impl, m)
+		}
+		if first == nil {
+			first = fi
+		} else if fi.retType != first.retType || len(fi.params) != len(first.params) || fi.usesNow != first.usesNow || fi.usesOpq != first.usesOpq {
+			unsup("interface method %s.%s: implementors differ", in, m)
+		}
+		var as []string
+		for i := 1; i < len(fi.params); i++ {
+			as = append(as, fmt.Sprintf("a%d", i))
+		}
+		if fi.usesNow {
+			as = append(as, "now")
+		}
+		if fi.usesOpq {
+			as = append(as, "opq")
+		}
+		alts = append(alts, fmt.Sprintf("  | .%s v => %s v %s", impl, fi.leanName, strings.Join(as, " ")))
+	}
+	if first == nil {
+		unsup("interface %s has no implementor", in)
+	}
+	if c.g.dispatch == nil {
+		c.g.dispatch = map[string]bool{}
+	}
+	if !c.g.dispatch[dname] {
+		c.g.dispatch[dname] = true
+		var ps []string
+		for i := 1; i < len(first.params); i++ {
+			ps = append(ps, fmt.Sprintf("(a%d : %s)", i, c.g.leanType(first.params[i].Type())))
+		}
+		if first.usesNow {
+			ps = append(ps, "(now : Int)")
+		}
+		if first.usesOpq {
+			ps = append(ps, "(opq : Opq)")
+		}
+		c.aux = append(c.aux, fmt.Sprintf("/-- dynamic dispatch of `%s.%s` -/\ndef %s (c : I_%s) %s : Option %s :=\n  match c with\n%s\n", in, m, dname, in, strings.Join(ps, " "), first.retType, strings.Join(alts, "\n")))
+	}
+	d := *first
+	d.key, d.leanName, d.fd = in+"."+m, dname, nil
+	d.optPtr = map[types.Object]bool{}
+	d.mutated = append([]bool{}, first.mutated...)
+	d.mutated[0] = false
+	return &d
+}
+
 // ifaceCall: a method call on a value of a package interface: dispatch on the dynamic type. Every implementor's
 // method must be translated, take no further arguments and mutate nothing.
 func (c *fnCtx) ifaceCall(in string, se *ast.SelectorExpr, x *ast.CallExpr) ex {
@@ -1402,6 +1461,11 @@ func (c *fnCtx) store(b *block, l ast.Expr, v string) {
 	case *ast.SelectorExpr:
 		if sel, ok := c.g.p.TypesInfo.Selections[x]; ok && sel.Kind() == types.FieldVal {
 			base := c.expr(x.X)
+			if c.rawPtr[base.s] && len(sel.Index()) == 1 {
+				// the base is a nilable pointer: write through it (a nil base panics)
+				c.store(b, x.X, "(some { (← "+base.s+") with f_"+x.Sel.Name+" := "+v+" })")
+				return
+			}
 			if base.m {
 				unsup("partial base in field store")
 			}
@@ -1492,6 +1556,12 @@ func (c *fnCtx) stmt(b *block, s ast.Stmt) {
 			m, k := c.expr(call.Args[0]), c.expr(call.Args[1])
 			c.store(b, call.Args[0], "(mapDelete "+m.bind()+" "+k.bind()+")")
 			return
+		}
+		if se, ok := call.Fun.(*ast.SelectorExpr); ok {
+			if in, ok := c.g.ifaceOf(c.typeOf(se.X)); ok {
+				c.callStmt(b, call, c.ifaceDispatch(in, se.Sel.Name), nil)
+				return
+			}
 		}
 		fi := c.g.callee(call)
 		if fi == nil {
@@ -1960,6 +2030,11 @@ func (c *fnCtx) rangeStmt(b *block, x *ast.RangeStmt) {
 		collS = coll.bind()
 	case *types.Map:
 		keyT, valT = c.g.leanType(u.Key()), c.g.leanType(u.Elem())
+		if _, ok := c.g.ifaceOf(u.Elem()); ok {
+			if id, ok := x.Value.(*ast.Ident); ok && id.Name != "_" {
+				c.nilVars[c.g.p.TypesInfo.Defs[id]] = true
+			}
+		}
 		collS = "(mapEntries " + coll.bind() + ")"
 	default:
 		unsup("range over %s", u.String())
@@ -2148,7 +2223,7 @@ func (g *fnGen) prepare(fd *ast.FuncDecl, key string) (fi *fnInfo, err string) {
 
 func genFns(infos []pkgInfo) (string, string, map[string]string) {
 	var ov strings.Builder
-	ov.WriteString("import JwtModel.Gen.Fn\nimport JwtModel.Validate\n/-! GENERATED by /verif/extract (gofn.go). Do not edit.\n\nReading the struct mirrors of `Gen/Fn.lean` out of model values (`Val`) through the JSON keys of the Go struct tags. -/\nnamespace Jwt.Gen.Fn\nopen Jwt Jwt.Codec Jwt.GoRt\n\n/-- a nilable pointer to a struct: `Val.ptr x` is non-nil -/\ndef optOfVal {α : Type} (f : Val → α) (v : Val) : Option α :=\n  match v with\n  | .ptr x => some (f x)\n  | _ => none\n\ndef mapOfVal (v : Val) : GoMap Str Int :=\n  match v with\n  | .map m => some (m.map fun p => (p.1, p.2.asInt))\n  | _ => none\n\n")
+	ov.WriteString("import JwtModel.Gen.Fn\nimport JwtModel.Validate\n/-! GENERATED by /verif/extract (gofn.go). Do not edit.\n\nReading the struct mirrors of `Gen/Fn.lean` out of model values (`Val`) through the JSON keys of the Go struct tags. -/\nnamespace Jwt.Gen.Fn\nopen Jwt Jwt.Codec Jwt.GoRt\n\n/-- a nilable pointer to a struct: `Val.ptr x` is non-nil -/\ndef optOfVal {α : Type} (f : Val → α) (v : Val) : Option α :=\n  match v with\n  | .ptr x => some (f x)\n  | _ => none\n\ndef mapOfValWith {α : Type} (f : Val → α) (v : Val) : GoMap Str α :=\n  match v with\n  | .map m => some (m.map fun p => (p.1, f p.2))\n  | _ => none\n\ndef mapOfVal (v : Val) : GoMap Str Int :=\n  match v with\n  | .map m => some (m.map fun p => (p.1, p.2.asInt))\n  | _ => none\n\n")
 	var out strings.Builder
 	out.WriteString("import JwtModel.GoRt\n/-! GENERATED by /verif/extract (gofn.go) from /repo's working tree on every run. Do not edit.\n\n" +
 		"Statement-by-statement translations of a whitelisted set of Go functions into the `Option` monad\n(`none` = run-time panic); vocabulary: JwtModel/GoRt.lean. -/\nset_option linter.unusedVariables false\nnamespace Jwt.Gen.Fn\nopen Jwt Jwt.GoRt\n\n")
@@ -2337,24 +2412,68 @@ func (g *fnGen) ofVal(name string) string {
 			val = "optOfVal " + lt + ".ofVal " + src
 		case isPtr:
 			continue
-		case lt == "Str":
-			val = src + ".asStr"
-		case lt == "Int":
-			val = src + ".asInt"
-		case lt == "Bool":
-			val = src + ".asBool"
 		case lt == "(List Str)":
 			val = src + ".strs"
 		case lt == "(GoMap Str Int)":
 			val = "mapOfVal " + src
-		case strings.HasPrefix(lt, "T_"):
-			val = lt + ".ofVal " + src
 		default:
-			continue
+			val = g.ofValExpr(f.Type(), src)
+			if val == "" {
+				continue
+			}
 		}
 		parts = append(parts, "f_"+f.Name()+" := "+val)
 	}
 	return fmt.Sprintf("def T_%s.ofVal (v : Val) : T_%s :=\n  { %s }\n\n", name, name, strings.Join(parts, ",\n    "))
+}
+
+// ofValExpr: how a value of Go type t is read out of the model value `src` ("" = outside the subset)
+func (g *fnGen) ofValExpr(t types.Type, src string) string {
+	lt, _ := safeType(g, t)
+	if lt == "" {
+		return ""
+	}
+	switch {
+	case lt == "Str":
+		return src + ".asStr"
+	case lt == "Int":
+		return src + ".asInt"
+	case lt == "Bool":
+		return src + ".asBool"
+	case strings.HasPrefix(lt, "T_"):
+		if _, isPtr := t.Underlying().(*types.Pointer); isPtr {
+			return ""
+		}
+		return lt + ".ofVal " + src
+	}
+	switch u := t.Underlying().(type) {
+	case *types.Slice:
+		if g.nilableElem(u.Elem()) {
+			return "(" + src + ".asList.map (optOfVal " + g.leanType(u.Elem()) + ".ofVal))"
+		}
+		e := g.ofValExpr(u.Elem(), "__x")
+		if e == "" {
+			return ""
+		}
+		return "(" + src + ".asList.map fun __x => " + e + ")"
+	case *types.Map:
+		if g.leanType(u.Key()) != "Str" {
+			return ""
+		}
+		if in, ok := g.ifaceOf(u.Elem()); ok {
+			if len(g.ifaces[in]) != 1 {
+				return ""
+			}
+			impl := g.ifaces[in][0]
+			return fmt.Sprintf("(mapOfValWith (fun __x => match __x with | .nil => none | .ptr __s => some (I_%s.%s (T_%s.ofVal __s)) | __s => some (I_%s.%s (T_%s.ofVal __s))) %s)", in, impl, impl, in, impl, impl, src)
+		}
+		e := g.ofValExpr(u.Elem(), "__x")
+		if e == "" {
+			return ""
+		}
+		return "(mapOfValWith (fun __x => " + e + ") " + src + ")"
+	}
+	return ""
 }
 
 // safeType: Lean type and default of a struct field; fields of types outside the subset are dropped from the mirror
